@@ -16,6 +16,8 @@ CONSTANTS
   PForms <- PfPlain
   Containers <- CtAll
   OvKVals <- Ov3
+  SForms <- SfAll
+  KeySortSeq <- SortIon
 INVARIANT PolyAgreesWithFold
 INVARIANT PermutationInvariant
 INVARIANT InactiveNotInExponent
